@@ -252,6 +252,9 @@ func genUniverse(r *rand.Rand, sys string, odd, deep bool) *Universe {
 				fmt.Fprintf(&mgmtX, "      <dependency>\n        <groupId>%s</groupId>\n        <artifactId>%s</artifactId>\n        <version>%s</version>\n      </dependency>\n", ga[0], ga[1], ver)
 			case 1: // only managed (not a dependency of this pom)
 				fmt.Fprintf(&mgmtX, "      <dependency>\n        <groupId>%s</groupId>\n        <artifactId>%s</artifactId>\n        <version>%s</version>\n      </dependency>\n", ga[0], ga[1], ver)
+			case 2: // the same version both as a dependency and in dependencyManagement (two requirements, one key)
+				fmt.Fprintf(&depsX, "    <dependency>\n      <groupId>%s</groupId>\n      <artifactId>%s</artifactId>\n      <version>%s</version>\n%s    </dependency>\n", ga[0], ga[1], ver, scope)
+				fmt.Fprintf(&mgmtX, "      <dependency>\n        <groupId>%s</groupId>\n        <artifactId>%s</artifactId>\n        <version>%s</version>\n      </dependency>\n", ga[0], ga[1], ver)
 			default:
 				fmt.Fprintf(&depsX, "    <dependency>\n      <groupId>%s</groupId>\n      <artifactId>%s</artifactId>\n      <version>%s</version>\n%s    </dependency>\n", ga[0], ga[1], ver, scope)
 			}
@@ -449,4 +452,29 @@ func genOpts(r *rand.Rand, u *Universe, explicitStream, pinnedStream bool) Opts 
 		o.MaxUpgrades = -1
 	}
 	return o
+}
+
+// genDevFlip builds, on purpose, the situation in which a vulnerability is filtered out of the
+// first analysis (reached through a dev dependency only, DevDeps=false) but passes the filter in
+// the patched graph (the upgraded production dependency starts to depend on the same package):
+// the report must list it as introduced and the fresh analysis must find it.
+func genDevFlip(r *rand.Rand) (*Universe, Opts) {
+	a, d, p := "pa", "pd", "pp"
+	if r.Intn(2) == 0 {
+		a, d, p = "@sc/qa", "qd", "qp"
+	}
+	vp := pick(r, []string{"1.0.0", "1.2.0", "2.0.0"})
+	hi := pick(r, []string{"2.0.0", "2.1.0", "3.0.0"})
+	var sb strings.Builder
+	fmt.Fprintf(&sb, "%s\n\t1.0.0\n\t%s\n\t\t%s@%s\n", a, hi, p, vp)
+	fmt.Fprintf(&sb, "%s\n\t1.0.0\n\t\t%s@%s\n", d, p, vp)
+	fmt.Fprintf(&sb, "%s\n\t%s\n", p, vp)
+	u := &Universe{Sys: "npm", File: "package.json", NameSafe: true, Schema: sb.String(),
+		Pkgs: []string{a, d, p}, Versions: map[string][]string{a: {"1.0.0", hi}, d: {"1.0.0"}, p: {vp}}, Direct: []string{a, d}}
+	u.Manifest = fmt.Sprintf("{\n  \"name\": \"root\",\n  \"version\": \"1.0.0\",\n  \"dependencies\": {\n    %q: \"^1.0.0\"\n  },\n  \"devDependencies\": {\n    %q: \"^1.0.0\"\n  }\n}\n", a, d)
+	idA := fmt.Sprintf("V-%03d", 100+r.Intn(400))
+	idP := fmt.Sprintf("V-%03d", 500+r.Intn(400))
+	u.Vulns = []GenVuln{{ID: idA, Pkg: a, Introduced: "0", Fixed: hi}, {ID: idP, Pkg: p, Introduced: "0"}}
+	o := Opts{Strategy: "relax", DevDeps: false, MaxDepth: -1, MaxUpgrades: pick(r, []int{1, 1, 0}), NoIntroduce: r.Intn(4) == 0}
+	return u, o
 }
